@@ -36,4 +36,7 @@ package ipv4
 //@ func GetMulticastTTL
 //@   prop C12
 //@   requires socket != nil
+//@   remember after call syscall.GetsockoptInt: kernelTTL := result0
 //@   assert call syscall.GetsockoptInt: arg1 == 0 && arg2 == 33
+//@   // the kernel's value (0..255) is reported as it is
+//@   ensures [reports-kernel-state] result1 == nil && 0 <= kernelTTL && kernelTTL <= 255 ==> int(result0) == kernelTTL
